@@ -790,7 +790,8 @@ def differential(E, con, fi, max_paths=64):
                     o.items = items0
                 try:
                     out = R.run_real(E, con, fi, bound, m, heap0, ctx)
-                except R.NotConcretisable:
+                except (R.NotConcretisable, RecursionError):
+                    # (RecursionError: the model's heap is cyclic where Python data cannot be - a sequence that contains itself)
                     stats["not_concretisable"] += 1
                     pending.extend(ctx.alternatives)
                     continue
@@ -801,7 +802,12 @@ def differential(E, con, fi, max_paths=64):
                 out["bound"] = bound
                 if conc.inexact:
                     stats["inexact"] += 1
-                mism = _compare(E, ctx, I, m, conc, out, kind, value, tr_old, con)
+                try:
+                    mism = _compare(E, ctx, I, m, conc, out, kind, value, tr_old, con)
+                except RecursionError:
+                    stats["not_concretisable"] += 1
+                    pending.extend(ctx.alternatives)
+                    continue
                 if mism and out.get("entry_object_beyond_frontier"):
                     # the model's entry state is not a state (an object beyond the allocation frontier collides with what the run allocates)
                     stats["ill_formed_model_not_compared"] = stats.get("ill_formed_model_not_compared", 0) + 1
